@@ -6,7 +6,7 @@
     [block_kfold] / [block_shuffle_split] / [partition_by_sum] are the models
     of the code in /repo (Model/CrossVal.v); [None] is ValueError.  Random draws
     enter as oracles constrained only to be permutations. *)
-From Coq Require Import Arith List Bool ZArith QArith Permutation Sorted.
+From Coq Require Import Arith List Bool ZArith QArith Qabs Permutation Sorted.
 From Verde Require Import Lib.Dyadic Model.CrossVal Proofs.CrossValProofs.
 Import ListNotations.
 Close Scope Q_scope.
@@ -30,23 +30,51 @@ Theorem C11_partition_parts : forall array parts idx,
 Proof. exact pbs_parts. Qed.
 Print Assumptions C11_partition_parts.
 
-(** balance: see C11_balance_reading for what [balance_ok] says *)
+(** STRICT balance (code after the repair 18a2287): every part's sum differs
+    from total/parts - the rational - by less than the largest element, i.e. one
+    block's population; see C11_balance_reading(_Q) for what [balance_ok] says *)
 Theorem C11_partition_balance : forall array parts idx,
   partition_by_sum array parts = Some idx -> 2 <= parts ->
-  balance_ok (list_sum array / parts) (list_sum array mod parts) (list_max array)
-             (map (@list_sum) (np_split array idx)) = true.
+  balance_ok (list_sum array) parts (list_max array) (map (@list_sum) (np_split array idx)) = true.
 Proof. exact pbs_balance. Qed.
 Print Assumptions C11_partition_balance.
 
-(** every part sum p satisfies ideal - M < p, every part but the last
-    p < ideal + M, and the last p < ideal + r + M   (ideal = total // parts,
-    r = total mod parts, M = the largest element = one block's population) *)
-Theorem C11_balance_reading : forall ideal r M ps, ps <> [] ->
-  (balance_ok ideal r M ps = true <->
-   Forall (fun p => ideal < p + M) ps /\ Forall (fun p => p < ideal + M) (removelast ps) /\
-   last ps 0 < ideal + r + M).
+(** [balance_ok total k M ps]: every p in ps has |p - total/k| < M, cross-multiplied by k ... *)
+Theorem C11_balance_reading : forall total k M ps,
+  balance_ok total k M ps = true <->
+  Forall (fun p => k * p < total + k * M /\ total < k * p + k * M) ps.
 Proof. exact balance_ok_spec. Qed.
 Print Assumptions C11_balance_reading.
+
+(** ... which is the inequality between rationals *)
+Theorem C11_balance_reading_Q : forall total k M p, 0 < k ->
+  (k * p < total + k * M /\ total < k * p + k * M) <->
+  (Qabs (inject_Z (Z.of_nat p) - (Z.of_nat total # Pos.of_nat k)) < inject_Z (Z.of_nat M))%Q.
+Proof. exact balance_ok_Q. Qed.
+Print Assumptions C11_balance_reading_Q.
+
+(** the sharper per-split-point form: the cumulative sum in front of split point
+    number j+1 is at most (j+1)*total/parts and misses it by less than the
+    element sitting at the split point *)
+Theorem C11_partition_split_point_balance : forall array parts idx,
+  partition_by_sum array parts = Some idx ->
+  forall j, j < length idx ->
+  let b := nth j idx 0 in
+  parts * list_sum (firstn b array) <= S j * list_sum array /\
+  S j * list_sum array < parts * (list_sum (firstn b array) + nth b array 0).
+Proof. exact pbs_split_point_balance. Qed.
+Print Assumptions C11_partition_split_point_balance.
+
+(** the pinned code (multiples of total // parts) violated the strict bound:
+    five singleton blocks in three parts gave sums 1, 1, 3; the repaired code gives 1, 2, 2 *)
+Theorem C11_partition_pinned_refuted :
+  partition_by_sum_pinned [1;1;1;1;1] 3 = Some [1;2] /\
+  map (@list_sum) (np_split [1;1;1;1;1] [1;2]) = [1;1;3] /\
+  balance_ok 5 3 (list_max [1;1;1;1;1]) [1;1;3] = false /\
+  partition_by_sum [1;1;1;1;1] 3 = Some [1;3] /\
+  map (@list_sum) (np_split [1;1;1;1;1] [1;3]) = [1;2;2].
+Proof. exact partition_by_sum_pinned_refuted. Qed.
+Print Assumptions C11_partition_pinned_refuted.
 
 (** ** sklearn KFold over the blocks (the fallback) *)
 Theorem C11_kfold_folds : forall n k, 0 < k -> k <= n ->
@@ -100,14 +128,13 @@ Proof. exact bk_cover. Qed.
 Print Assumptions C11_blockkfold_cover.
 
 (** balancing requested and achieved (no warning): every test fold's point
-    count is within one block's population of n // n_splits (the last fold
-    also carries n mod n_splits) *)
+    count differs from n / n_splits (the rational) by less than one block's
+    population (the largest) *)
 Theorem C11_blockkfold_balance : forall labels n_splits shuffle balance warned splits,
   shuffle_ok labels shuffle ->
   block_kfold labels n_splits shuffle balance = Some (warned, splits) ->
   balance = true -> warned = false ->
-  balance_ok (length labels / n_splits) (length labels mod n_splits)
-             (list_max (map (count labels) (usort labels)))
+  balance_ok (length labels) n_splits (list_max (map (count labels) (usort labels)))
              (map (fun s => length (snd s)) splits) = true.
 Proof. exact bk_balance. Qed.
 Print Assumptions C11_blockkfold_balance.
